@@ -21,13 +21,12 @@ theorem intText_NB (n : Int) (x : List Char) : NB (intText n ++ x) := by
   · obtain ⟨c0, cs, e, hc⟩ := decDigits_head n.toNat
     rw [e]; exact (digit_props hc).1
 
-theorem enumValue_step {d : Nat} {v : EnumValue} (hw : v.wf = true) (hd : 1 < d) (last : Bool) (l : Layout)
+theorem enumValue_step {v : EnumValue} (hw : v.wf = true) (last : Bool) (l : Layout)
     {R : List Char} (hR : EnumFollow R) (hlast : last = true → Sep R) :
-    EnumValue.parse d ((rEnumValue v last l).1 ++ R) = .ok v R := by
+    EnumValue.parse ((rEnumValue v last l).1 ++ R) = .ok v R := by
   obtain ⟨name, value, anns⟩ := v
   simp only [EnumValue.wf, Bool.and_eq_true] at hw
   obtain ⟨⟨hname, hval⟩, han⟩ := hw
-  obtain ⟨d', rfl⟩ : ∃ d', d = d' + 2 := ⟨d - 2, by omega⟩
   simp only [rEnumValue, rSeq_fst, rSeq_snd, rLit_fst, rLit_snd, List.append_assoc]
   have hsepT : ∀ l1, Sep ((rOptAnns anns l1).1 ++ ((rDefTail anns true last (rOptAnns anns l1).2).1 ++ R)) := by
     intro l1
@@ -51,12 +50,12 @@ theorem enumValue_step {d : Nat} {v : EnumValue} (hw : v.wf = true) (hd : 1 < d)
     obtain ⟨g, ann, hg, hann, htail⟩ := defTail_rt
       (fun anns' => andThen (opt blank) fun _ => ret ({ name := name, value := some n, annotations := anns'.getD [] } : EnumValue))
       han true last (rB0 (rB0 l).2).2 hR.1 hR.2.1 hR.2.2.1
-    have hv : (andThen (tag ['=']) fun _ => andThen (opt blank) fun _ => IntConstant.parse (d' + 2))
+    have hv : (andThen (tag ['=']) fun _ => andThen (opt blank) fun _ => IntConstant.parse)
         (['='] ++ ((rB0 (rB0 l).2).1 ++ (intText n ++ ((rOptAnns anns (rB0 (rB0 l).2).2).1 ++
           ((rDefTail anns true last (rOptAnns anns (rB0 (rB0 l).2).2).2).1 ++ R))))) =
         .ok n ((rOptAnns anns (rB0 (rB0 l).2).2).1 ++ ((rDefTail anns true last (rOptAnns anns (rB0 (rB0 l).2).2).2).1 ++ R)) := by
       rw [andThen_of_ok (tag_append _ _), andThen_optBlank (rB0_BT _) (intText_NB n _)]
-      exact intConstant_rt d' hval (hsepT _)
+      exact intConstant_rt hval (hsepT _)
     rw [andThen_of_ok (ident_rt hname ((rB0_BT _).sep_append (Or.inr (by rw [Sep]; rfl))).noIdent),
       andThen_optBlank (rB0_BT _) (by rw [NB]; rfl), andThen_of_ok (opt_of_ok hv), htail, andThen_optBlank hg hR.1, hann]
     rfl
@@ -68,16 +67,15 @@ theorem rEnumValue_start {v : EnumValue} (hw : v.wf = true) (last : Bool) (l : L
   simp only [rEnumValue, rSeq_fst, rLit_fst, List.append_assoc, e, List.cons_append]
   exact ⟨hc, by simp⟩
 
-def Enum.depth (_ : Enum) : Nat := 1
 
 /-- an `enum` definition followed by the blank `b` of its item slot -/
-theorem enum_rt {e : Enum} (hw : e.wf = true) {d : Nat} (hd : 1 < d) (l : Layout) {b R : List Char} (hb : BT b)
-    (hR : ItemStart R) : ∃ g, BT g ∧ Enum.parse d ((rEnum e l).1 ++ (b ++ R)) = .ok e (g ++ R) := by
+theorem enum_rt {e : Enum} (hw : e.wf = true) (l : Layout) {b R : List Char} (hb : BT b)
+    (hR : ItemStart R) : ∃ g, BT g ∧ Enum.parse ((rEnum e l).1 ++ (b ++ R)) = .ok e (g ++ R) := by
   obtain ⟨name, values, anns⟩ := e
   simp only [Enum.wf, Bool.and_eq_true, List.all_eq_true] at hw
   obtain ⟨⟨hname, hvs⟩, han⟩ := hw
   simp only [rEnum, rSeq_fst, rSeq_snd, rLit_fst, rLit_snd, List.append_assoc]
-  have hloop := many0F_slots (EnumValue.parse d) rEnumValue Eq (fun v => v.wf = true) (fun bl => bl = [])
+  have hloop := many0F_slots EnumValue.parse rEnumValue Eq (fun v => v.wf = true) (fun bl => bl = [])
     (fun R => hdP isIdentStart R = true) '}'
     (by
       intro x last l bl R hx hL hlast hmid
@@ -89,7 +87,7 @@ theorem enum_rt {e : Enum} (hw : e.wf = true) {d : Nat} (hd : 1 < d) (l : Layout
       refine ⟨x, [], rfl, rfl, ?_, ?_⟩
       · have : 0 < (rEnumValue x last l).1.length := List.length_pos_iff.mpr (rEnumValue_start hx last l []).2
         simp only [List.nil_append, List.length_nil]; omega
-      · simpa using enumValue_step hx hd last l hR.1 hR.2)
+      · simpa using enumValue_step hx last l hR.1 hR.2)
     (by intro y last l R hy; exact (rEnumValue_start hy last l R).1)
     (by
       intro bl R hL; subst hL
@@ -101,7 +99,7 @@ theorem enum_rt {e : Enum} (hw : e.wf = true) {d : Nat} (hd : 1 < d) (l : Layout
   have hys' := forall2_eq' hys
   subst hys' hbl'
   simp only [List.nil_append] at hm
-  have hm' : many0 (EnumValue.parse d) ((rSlots rEnumValue values (rB0 (rB0 (rB1 l).2).2).2).1 ++
+  have hm' : many0 EnumValue.parse ((rSlots rEnumValue values (rB0 (rB0 (rB1 l).2).2).2).1 ++
       (['}'] ++ ((rOptAnns anns (rSlots rEnumValue values (rB0 (rB0 (rB1 l).2).2).2).2).1 ++ (b ++ R)))) =
       .ok values (['}'] ++ ((rOptAnns anns (rSlots rEnumValue values (rB0 (rB0 (rB1 l).2).2).2).2).1 ++ (b ++ R))) := hm
   have hnbv : NB ((rSlots rEnumValue values (rB0 (rB0 (rB1 l).2).2).2).1 ++
@@ -114,7 +112,7 @@ theorem enum_rt {e : Enum} (hw : e.wf = true) {d : Nat} (hd : 1 < d) (l : Layout
   have hpre : ∀ {α} (K : Ident → List EnumValue → P α),
       (andThen (tag cs!"enum") fun _ => andThen blank fun _ => andThen Ident.parse fun name =>
         andThen (opt blank) fun _ => andThen (tag ['{']) fun _ => andThen (opt blank) fun _ =>
-        andThen (many0 (EnumValue.parse d)) fun values => andThen (opt blank) fun _ => andThen (tag ['}']) fun _ => K name values)
+        andThen (many0 EnumValue.parse) fun values => andThen (opt blank) fun _ => andThen (tag ['}']) fun _ => K name values)
         (cs!"enum" ++ ((rB1 l).1 ++ (name ++ ((rB0 (rB1 l).2).1 ++ (['{'] ++ ((rB0 (rB0 (rB1 l).2).2).1 ++
           ((rSlots rEnumValue values (rB0 (rB0 (rB1 l).2).2).2).1 ++ (['}'] ++
             ((rOptAnns anns (rSlots rEnumValue values (rB0 (rB0 (rB1 l).2).2).2).2).1 ++ (b ++ R))))))))))
